@@ -24,6 +24,7 @@ func TestMain(m *testing.M) { hx.Main(m, "C18") }
 
 const sigResetKeepsError = "C18/writer-reset-keeps-error"
 
+
 func stateOf(client bool) ws.State {
 	if client {
 		return ws.StateClientSide
@@ -274,8 +275,13 @@ func TestWriterReset(t *testing.T) {
 			hx.Class("putget/recycled")
 		}
 		if mode == "resetop" && errRec {
-			// The property does not say whether the quick reset clears a
-			// recorded error: left open.
+			// Left open: ResetOp keeps the destination (it is the per-message
+			// reset of a send loop on one connection), and property C16 requires
+			// that after a failed write the writer "reports the error on every
+			// later write and flush and sends no further bytes" — clearing the
+			// error here would let the next message follow a half-written frame.
+			// C18's sentence on the quick reset lists what it drops and keeps "as
+			// documented"; the error is not among them. Only Reset clears it.
 			hx.Class("open/resetop-after-recorded-error")
 			return
 		}
@@ -318,11 +324,19 @@ func TestWriterReset(t *testing.T) {
 
 		// The same H2 on a fresh writer with the same Size().
 		prefer := 0
-		if mode != "putget" && !grown {
+		if mode != "putget" && !grown && cfg1.Ctor != "get" && cfg1.Reuse != "pool" {
 			prefer = wh.RawLen(cfg1)
 		}
 		cands := wh.Twins(sizeAfter, side2, op2, ext2, noFlush2, prefer)
+		if len(cands) > 1 && prefer > 0 && cands[0].N == prefer {
+			// the backing buffer is known (never grown, not from the pool): the
+			// same configuration is the writer over a buffer of that length
+			cands = cands[:1]
+			hx.Class("twin/size-ambiguous-but-buffer-known")
+		}
 		if len(cands) > 1 {
+			// Size() 124/125/65530..65535 with a grown or pooled buffer: its length is
+			// not observable, either fresh writer is "the same configuration"
 			hx.Class("twin/ambiguous-size")
 		}
 		compared, firstMsg := 0, ""
@@ -433,4 +447,6 @@ func TestKnownFindings(t *testing.T) {
 	p3, d3 := probe(false, true)
 	hx.EvalN(3)
 	hx.Probe(t, sigResetKeepsError, what, p1 || p2 || p3, []interface{}{d1, d2, d3})
+	probeUTF8Accepted(t)
+	probeExtFinalFragment(t)
 }
